@@ -60,6 +60,17 @@ def regenerate_tags():
     return out.strip()
 
 
+def regenerate_sites():
+    ok, log = common.go_build(["sitesgen"])
+    if not ok:
+        raise RuntimeError(log[-3000:])
+    rc, out = sh([os.path.join(HARNESS, "bin", "sitesgen"), "/repo", os.path.join(COQ, "Resources/SitesGen.v")], timeout=300)
+    if rc != 0:
+        raise RuntimeError("sitesgen failed:\n" + out[-3000:])
+    return out.strip().splitlines()[-1]
+
+
 def regenerate_all():
-    info = {"ber": regenerate_ber(), "routes": regenerate_routes(), "dict": regenerate_dict(), "tags": regenerate_tags()}
+    info = {"ber": regenerate_ber(), "routes": regenerate_routes(), "dict": regenerate_dict(), "tags": regenerate_tags(),
+            "sites": regenerate_sites()}
     return info
